@@ -110,6 +110,7 @@ type mGen struct {
 }
 
 var mNames = []string{"a", "ab", "b", "é"}
+var mLongNames = []string{strings.Repeat("n", 960), strings.Repeat("L", 5000)}
 
 func (g *mGen) valid() []string {
 	out := []string{}
@@ -142,6 +143,9 @@ func (g *mGen) request(o *mOp) {
 	case "trylock":
 		o.Rpc = "trylock"
 		o.Name = weighted(r, append(append([]string{}, mNames...), ""), []int{35, 20, 25, 15, 5})
+		if r.Chance(6) {
+			o.Name = common.Pick(r, mLongNames)
+		}
 		o.Size = weighted(r, []*int32{nil, p32(0), p32(1), p32(2), p32(-1)}, []int{40, 5, 20, 30, 5})
 		o.Lt = weighted(r, []*int32{nil, p32(0), p32(3), p32(5), p32(-1)}, []int{40, 8, 22, 25, 5})
 	case "unlock", "renew":
